@@ -24,6 +24,8 @@ import (
 	"runtime"
 	"strconv"
 	"strings"
+	"sync"
+	"sync/atomic"
 	"time"
 	"unsafe"
 
@@ -124,10 +126,25 @@ type fetchSpec struct {
 }
 
 type transport struct {
+	mu        sync.Mutex
 	cur       *fetchSpec
 	fetches   int
 	adminFail bool
-	adminHits int
+	adminLog  []string // requests the stub HAProxy admin API received since the last takeAdmin
+}
+
+var epLabel = regexp.MustCompile(`/p(\d+)\$?$`)
+
+// takeAdmin returns and clears the admin-call log in the answer format ` adm=<call>,<call>…`.
+func (t *transport) takeAdmin() string {
+	t.mu.Lock()
+	defer t.mu.Unlock()
+	l := t.adminLog
+	t.adminLog = nil
+	if len(l) == 0 {
+		return " adm=-"
+	}
+	return " adm=" + strings.Join(l, ",")
 }
 
 type errReader struct{}
@@ -141,10 +158,13 @@ func resp(req *http.Request, code int, body io.ReadCloser) *http.Response {
 }
 
 func (t *transport) RoundTrip(req *http.Request) (*http.Response, error) {
+	var reqBody []byte
 	if req.Body != nil {
-		io.Copy(io.Discard, req.Body)
+		reqBody, _ = io.ReadAll(req.Body)
 		req.Body.Close()
 	}
+	t.mu.Lock()
+	defer t.mu.Unlock()
 	if req.URL.Host == "localhost:9000" && strings.HasPrefix(req.URL.Path, "/metrics") {
 		t.fetches++
 		f := t.cur
@@ -162,8 +182,14 @@ func (t *transport) RoundTrip(req *http.Request) (*http.Response, error) {
 	if strings.HasPrefix(req.URL.Path, "/healthcheck") {
 		return resp(req, 200, io.NopCloser(strings.NewReader("OK"))), nil
 	}
-	// HAProxy admin API
-	t.adminHits++
+	// HAProxy admin API: method, path and (for endpoint requests) the label of the endpoint in the body
+	call := req.Method + req.URL.Path
+	if m := epLabel.FindSubmatch(reqBody); m != nil {
+		call += "/p" + string(m[1])
+	} else if len(reqBody) > 0 {
+		call += "/" + proto.Enc(string(reqBody))
+	}
+	t.adminLog = append(t.adminLog, call)
 	if t.adminFail {
 		return resp(req, 500, io.NopCloser(strings.NewReader("verif: scripted admin failure"))), nil
 	}
@@ -409,11 +435,14 @@ func (w *wworld) simpleOp(f []string) string {
 	case w.acc == nil:
 		return "no-accessor"
 	case isReload:
-		return res(w.acc.ReloadFromFile()) + " " + w.inforce()
+		w.tr.takeAdmin()
+		return res(w.acc.ReloadFromFile()) + " " + w.inforce() + w.tr.takeAdmin()
 	case f[1] == "free":
-		return res(w.acc.RevertToDiagnosisFree()) + " " + w.inforce()
+		w.tr.takeAdmin()
+		return res(w.acc.RevertToDiagnosisFree()) + " " + w.inforce() + w.tr.takeAdmin()
 	default:
-		return res(w.acc.RevertToLastLoaded()) + " " + w.inforce()
+		w.tr.takeAdmin()
+		return res(w.acc.RevertToLastLoaded()) + " " + w.inforce() + w.tr.takeAdmin()
 	}
 }
 
@@ -424,6 +453,55 @@ func must(err error) {
 }
 
 var mockClockSet bool
+
+// A call into the code under test that never returns (e.g. a leaked mutex) must become an ANSWER, not a dead
+// harness: everything that can block runs under a bounded wait.  The first such event of a process gets a
+// generous limit; the blocked goroutine (and whatever lock it holds inside the engine) stays behind, so later
+// cases are likely to block too and get a short limit, then are not run at all.
+var hangs int32
+
+func hangLimit() time.Duration {
+	switch n := atomic.LoadInt32(&hangs); {
+	case n == 0:
+		return 3 * time.Second
+	case n < 4:
+		return 300 * time.Millisecond
+	default:
+		return 0
+	}
+}
+
+func bounded(f func() string) (string, bool) {
+	lim := hangLimit()
+	if lim == 0 {
+		return "", false
+	}
+	ch := make(chan string, 1)
+	go func() {
+		defer func() {
+			if r := recover(); r != nil {
+				ch <- "panic " + proto.Enc(fmt.Sprint(r))
+			}
+		}()
+		ch <- f()
+	}()
+	select {
+	case v := <-ch:
+		return v, true
+	case <-time.After(lim):
+		atomic.AddInt32(&hangs, 1)
+		return "", false
+	}
+}
+
+func fillStuck(outs []string) []string {
+	for i := range outs {
+		if outs[i] == "" {
+			outs[i] = "stuck:not-reached"
+		}
+	}
+	return outs
+}
 
 func execWiring(c proto.Case, o *proto.Out) []string {
 	outs := make([]string, len(c.Ops))
@@ -483,9 +561,20 @@ func execWiring(c proto.Case, o *proto.Out) []string {
 		w.watch = watch
 		w.cfg = watcherConfig(watch)
 		return fmt.Sprintf("ok n=%d period=%d interval=%d cooldown=%d %s", w.cfg.ConsecutiveN, int64(w.cfg.MinStablePeriod),
-			int64(w.cfg.MinTimeBetweenCalls), int64(w.cfg.CooldownPeriod), w.inforce())
+			int64(w.cfg.MinTimeBetweenCalls), int64(w.cfg.CooldownPeriod), w.inforce()) + tr.takeAdmin()
 	}
-	outs[0] = build()
+	if hangLimit() == 0 {
+		for i := range outs {
+			outs[i] = "stuck:not-run-after-earlier-calls-never-returned"
+		}
+		return outs
+	}
+	var ok0 bool
+	if outs[0], ok0 = bounded(build); !ok0 {
+		outs[0] = "stuck:construction-did-not-return"
+		o.Count("stuck")
+		return fillStuck(outs)
+	}
 	o.Count("wcfg-" + strings.SplitN(outs[0], " ", 2)[0])
 
 	if w.watch == nil {
@@ -504,7 +593,12 @@ func execWiring(c proto.Case, o *proto.Out) []string {
 					outs[i] = "no-watcher"
 				}
 			default:
-				outs[i] = w.simpleOp(f)
+				var ok bool
+				if outs[i], ok = bounded(func() string { return w.simpleOp(f) }); !ok {
+					outs[i] = "stuck:op-did-not-return"
+					o.Count("stuck")
+					return fillStuck(outs)
+				}
 			}
 		}
 		return outs
@@ -523,15 +617,19 @@ func execWiring(c proto.Case, o *proto.Out) []string {
 	finishObs := func() {
 		if cur >= 0 {
 			e := evs[cur]
-			outs[cur] = fmt.Sprintf("t=%s healthy=%d fetched=%d r=%s rt=%s %s", e.t, b2i(e.healthy), b2i(e.fetched), e.react, e.rt, w.inforce())
+			outs[cur] = fmt.Sprintf("t=%s healthy=%d fetched=%d r=%s rt=%s %s", e.t, b2i(e.healthy), b2i(e.fetched), e.react, e.rt, w.inforce()) + tr.takeAdmin()
 			if e.react != "none" {
 				o.Count("w-reaction-" + e.react)
 			}
 			cur = -1
 		}
 	}
+	// progress of the watcher's goroutine, watched by the main goroutine
+	var prog, phase, opIdx int64 // phase: 0 loop, 1 reaction, 2 simple op (opIdx), 3 predicate
+	enter := func(ph int64) { atomic.StoreInt64(&phase, ph); atomic.AddInt64(&prog, 1) }
 	realPred, realTrue, realFalse := w.cfg.ObtainPredicate, w.cfg.OnChangeToTrue, w.cfg.OnChangeToFalse
 	w.cfg.ObtainPredicate = func() bool {
+		enter(0)
 		finishObs()
 		for pos < len(c.Ops) {
 			i := pos
@@ -542,7 +640,10 @@ func execWiring(c proto.Case, o *proto.Out) []string {
 				continue
 			}
 			if f[0] != "obs" {
+				atomic.StoreInt64(&opIdx, int64(i))
+				enter(2)
 				outs[i] = w.simpleOp(f)
+				enter(0)
 				continue
 			}
 			lat, err1 := strconv.ParseInt(kvOr(f, "lat", "x"), 10, 64)
@@ -552,12 +653,15 @@ func execWiring(c proto.Case, o *proto.Out) []string {
 				continue
 			}
 			w.clk.Advance(time.Duration(lat))
+			tr.takeAdmin()
 			tr.cur = spec
 			before := tr.fetches
 			cur = i
 			e := &ev{react: "none"}
 			evs[i] = e
+			enter(3)
 			h := realPred()
+			enter(0)
 			tr.cur = nil
 			e.t = exactNs(w.clk.Now())
 			e.rt = e.t
@@ -582,17 +686,49 @@ func execWiring(c proto.Case, o *proto.Out) []string {
 			evs[cur].react = "healthy"
 			evs[cur].rt = exactNs(w.clk.Now())
 		}
+		enter(1)
 		realTrue()
+		enter(0)
 	}
 	w.cfg.OnChangeToFalse = func() {
 		if cur >= 0 {
 			evs[cur].react = "unhealthy"
 			evs[cur].rt = exactNs(w.clk.Now())
 		}
+		enter(1)
 		realFalse()
+		enter(0)
 	}
 	w.watch.RunInBackground()
-	<-done
+	last, lastAt := int64(-1), time.Now()
+wait:
+	for {
+		select {
+		case <-done:
+			break wait
+		case <-time.After(20 * time.Millisecond):
+			if p := atomic.LoadInt64(&prog); p != last {
+				last, lastAt = p, time.Now()
+			} else if time.Since(lastAt) > hangLimit() {
+				// the watcher's goroutine is blocked inside the code under test
+				atomic.AddInt32(&hangs, 1)
+				o.Count("stuck")
+				switch atomic.LoadInt64(&phase) {
+				case 1:
+					if cur >= 0 {
+						outs[cur] = "stuck:reaction-did-not-return r=" + evs[cur].react
+					}
+				case 2:
+					outs[atomic.LoadInt64(&opIdx)] = "stuck:op-did-not-return"
+				case 3:
+					if cur >= 0 {
+						outs[cur] = "stuck:predicate-did-not-return"
+					}
+				}
+				return fillStuck(outs)
+			}
+		}
+	}
 	finishObs()
 	nt := false
 	for _, e := range evs {
